@@ -245,7 +245,7 @@ func (r *c10Runner) Step(op string) string {
 		idbase, ok2 := c10Num(f[3])
 		n, ok3 := c10Num(f[4])
 		hw, ok4 := c10Num(f[5])
-		if !(ok1 && ok2 && ok3 && ok4) || n > 64 {
+		if !(ok1 && ok2 && ok3 && ok4) || n > 64 || base == 0 || idbase == 0 {
 			return "bad-op"
 		}
 		flags := f[6]
